@@ -18,6 +18,8 @@
 //   - purity: no converter (purl string, ecosystem, proto, SPDX 2.3, CDX, package index) changes the package
 //     or what a fresh ToPURL() returns; every converter's output is the same after any sequence of the
 //     others (all permutations of {proto, spdx, cdx}) as on a fresh deep copy
+//   - no qualifier of the PURL has an empty value; purl.QualifiersFromMap returns exactly the non-empty
+//     entries, sorted, for all maps over a 4-key alphabet x {absent, "", "x"}
 //   - CDX component: name, version, PURL string, locations (evidence occurrences) verbatim
 //   - SPDX package (exists when the PURL has a name and a version): PURL locator verbatim,
 //     name/version verbatim (see DC2), first two locations verbatim inside the source info
@@ -170,6 +172,15 @@ func judgeOne(it *harvest.Item) (vs []viol, pu *purl.PackageURL, purlPanicked bo
 	}
 	var s1 string
 	if pu != nil {
+		// a qualifier with an empty value is not a valid qualifier (purl.QualifiersFromMap: "Empty
+		// value strings are invalid qualifiers according to the purl spec so we filter them out"):
+		// it is in the struct and in the proto, but not in what print -> parse gives back
+		for _, q := range pu.Qualifiers {
+			if q.Value == "" {
+				add("purl-qualifier-empty-value:"+strings.ToLower(pu.Type), "ToPURL returned %+v: qualifier %q has an empty value (prints as %q; parsing that drops the qualifier)", *pu, q.Key, pu.String())
+				break
+			}
+		}
 		s1 = pu.String()
 		// type accepted / print-parse idempotent
 		u2, err := purl.FromString(s1)
@@ -566,6 +577,34 @@ func doReplay(file string) {
 		fmt.Fprintln(os.Stderr, err)
 		os.Exit(3)
 	}
+	if rec.Replay.Extractor == "" && strings.HasPrefix(rec.Replay.Synth, "qualifiers-from-map:") {
+		in := map[string]string{}
+		var want []string
+		for _, kv := range strings.Split(strings.TrimPrefix(rec.Replay.Synth, "qualifiers-from-map:"), ",") {
+			if k, v, ok := strings.Cut(kv, "="); ok {
+				in[k] = v
+				if v != "" {
+					want = append(want, kv)
+				}
+			}
+		}
+		sort.Strings(want)
+		desc := fmt.Sprintf("%q", in)
+		var got []string
+		for _, q := range purl.QualifiersFromMap(in) {
+			got = append(got, q.Key+"="+q.Value)
+		}
+		fmt.Printf("replay %s: purl.QualifiersFromMap(%s) = %q, want %q; map afterwards %q\n", rec.Key, desc, got, want, in)
+		bad := !eqStrs(got, want)
+		for _, w := range want {
+			k, v, _ := strings.Cut(w, "=")
+			bad = bad || in[k] != v
+		}
+		if bad {
+			os.Exit(1)
+		}
+		os.Exit(0)
+	}
 	if rec.Replay.Extractor == "" && strings.HasPrefix(rec.Replay.Synth, "type:") {
 		t := strings.TrimPrefix(rec.Replay.Synth, "type:")
 		_, err := purl.FromString("pkg:" + t + "/ns/name@1?channel=c")
@@ -611,7 +650,11 @@ func doReplay(file string) {
 		}
 		p.Extractor = ex.E
 		it := &harvest.Item{Ex: *ex, Fixture: rec.Replay.Fixture, Env: rec.Replay.Env, Required: req, Index: k, Pkg: p}
-		if rec.Replay.Synth != "" {
+		if strings.HasPrefix(rec.Replay.Synth, "blank:") {
+			if x := harvest.ApplyBlank(it, strings.Split(strings.TrimPrefix(rec.Replay.Synth, "blank:"), "+")); x != nil {
+				it = x
+			}
+		} else if rec.Replay.Synth != "" {
 			for _, s := range append(append(harvest.Substitutions(), harvest.PairSubstitutions()...), harvest.PurlFieldSubstitutions()...) {
 				if s.Label == rec.Replay.Synth {
 					if x := harvest.Apply(it, s); x != nil {
@@ -732,6 +775,26 @@ func main() {
 			units = append(units, unit{g})
 		}
 	}
+	// optional metadata fields that ToPURL turns into qualifiers, blanked one and two at a time
+	blankN := 0
+	for _, k := range order {
+		byLabel := map[string][]*harvest.Item{}
+		var labels []string
+		for _, it := range group[k] {
+			for _, x := range harvest.BlankVariants(it) {
+				if _, ok := byLabel[x.Synth]; !ok {
+					labels = append(labels, x.Synth)
+				}
+				byLabel[x.Synth] = append(byLabel[x.Synth], x)
+			}
+		}
+		sort.Strings(labels)
+		for _, l := range labels {
+			blankN += len(byLabel[l])
+			units = append(units, unit{byLabel[l]})
+		}
+	}
+	r.Set("blanked_qualifier_field_packages", blankN)
 	r.Set("units", map[string]int{"as_extracted_groups": nBase, "substituted_groups": len(units) - nBase, "substituted_packages": synthN, "structural_classes": shapes, "substitutions": len(subs)})
 
 	typesSeen := map[string]bool{}
@@ -752,6 +815,53 @@ func main() {
 	}
 	r.Set("substituted_packages_whose_purl_changed", purlChanged.Load())
 	r.Set("substituted_packages_whose_purl_needs_percent_encoding", purlEscaped.Load())
+	// purl.QualifiersFromMap over every map with keys from a 4-key alphabet (adjacent in sort
+	// order) and values from {"", "x"}: exactly the non-empty entries, sorted by key; the caller's
+	// non-empty entries stay in the map.
+	for _, keys := range [][]string{{"a", "b", "c", "d"}, {"arch", "classifier", "distro", "type"}} {
+		for m := 0; m < 81; m++ { // base-3 digits: absent / "" / "x"
+			in := map[string]string{}
+			var want []string
+			for i, d := 0, m; i < 4; i, d = i+1, d/3 {
+				switch d % 3 {
+				case 1:
+					in[keys[i]] = ""
+				case 2:
+					in[keys[i]] = "x"
+					want = append(want, keys[i]+"=x")
+				}
+			}
+			desc := fmt.Sprintf("%q", in)
+			var enc []string
+			for _, k := range keys {
+				if v, ok := in[k]; ok {
+					enc = append(enc, k+"="+v)
+				}
+			}
+			rp := replay{Synth: "qualifiers-from-map:" + strings.Join(enc, ",")}
+			r.Evals.Add(1)
+			r.Distinct("QualifiersFromMap|" + desc)
+			var got []string
+			pv, st := ev.Recover(func() {
+				for _, q := range purl.QualifiersFromMap(in) {
+					got = append(got, q.Key+"="+q.Value)
+				}
+			})
+			if pv != nil {
+				r.Violation("panic:QualifiersFromMap:"+ev.PanicSite(st), fmt.Sprintf("purl.QualifiersFromMap(%s) panicked: %v", desc, pv), rp)
+				continue
+			}
+			if !eqStrs(got, want) {
+				r.Violation("qualifiers-from-map:result", fmt.Sprintf("purl.QualifiersFromMap(%s) = %q, want exactly the non-empty entries sorted by key %q", desc, got, want), rp)
+			}
+			for _, w := range want {
+				k, v, _ := strings.Cut(w, "=")
+				if in[k] != v {
+					r.Violation("qualifiers-from-map:input-entry-lost", fmt.Sprintf("after purl.QualifiersFromMap(%s) the caller's map no longer has %s", desc, w), rp)
+				}
+			}
+		}
+	}
 	// coverage: PURL types seen dynamically vs referenced syntactically
 	for _, it := range items {
 		func() {
